@@ -79,6 +79,7 @@ const (
 	actNone genAction = iota
 	actGenError
 	actGenUnparseable
+	actGenPanic
 )
 
 func kill() {
@@ -337,6 +338,8 @@ func (r *recorder) genEvent(ev proto.Event) genAction {
 		return actGenError
 	case f.Do == "gen-unparseable":
 		return actGenUnparseable
+	case f.Do == "gen-panic":
+		return actGenPanic
 	}
 	return actNone
 }
